@@ -66,6 +66,8 @@ class Result:
     crash: object = None        # None | description
     raw_err: bytes = b""
     sanitizer: object = None
+    steps: int = -1
+    budget_hit: bool = False
 
 # ---------------------------------------------------------------- message classes
 MSG_PATTERNS = [
@@ -224,7 +226,7 @@ def run_real(exe, case, timeout=20, keep_dir=False):
             res.diags, res.err_other = ds, other
         res.out = out
         if any(dg.msg == "budget" for dg in res.diags):
-            res.inconclusive = True
+            res.inconclusive = True; res.budget_hit = True
         files = {}
         for root, dirs, fs in os.walk(d):
             for x in dirs:
@@ -296,7 +298,7 @@ def _run_model_chunk(cases):
         for f in j["fs"]:
             n = bytes.fromhex(f["name"]).decode("latin1")
             r.files[n] = ("f", bytes.fromhex(f["content"])) if f["kind"] == "f" else (f["kind"],)
-        r.inconclusive = j["inconclusive"]; r.crash = j["crash"]
+        r.inconclusive = j["inconclusive"]; r.crash = j["crash"]; r.steps = j.get("steps", -1)
         res.append(r)
     return res
 
